@@ -111,6 +111,42 @@ pub fn judge(case: &Case, acc: &mut Acc) {
             buf.push_data(b);
             pushed.extend_from_slice(b);
             acc.evaluations += 1;
+        } else if let Some(q) = op.strip_prefix("R:") {
+            // R:<count>:<len> = <count> frames of <len> bytes through this one buffer, each pushed in two
+            // chunks and pulled at once (the stream is not kept: each frame is compared as it comes out)
+            let f: Vec<usize> = q.split(':').map(|x| x.parse().unwrap()).collect();
+            if pos != pushed.len() {
+                panic!("harness: R needs an empty buffer");
+            }
+            for i in 0..f[0] {
+                let fr = gen_frame(f[1], i);
+                let cut = 1000.min(fr.len());
+                buf.push_data(&fr[..cut]);
+                acc.evaluations += 2;
+                if fr.len() > cut {
+                    if let Some(g) = buf.pull_data() {
+                        viol!(acc, P, "frame-from-incomplete-data", case, format!("pull returned a frame although no complete frame is buffered (frame {i} of a long-lived stream, {} bytes through the buffer so far)", i * fr.len()), "None", fmt_bytes(&g[..g.len().min(32)]));
+                        return;
+                    }
+                    buf.push_data(&fr[cut..]);
+                }
+                match buf.pull_data() {
+                    Some(g) if g[..] == fr[2..] => {}
+                    Some(g) => {
+                        viol!(acc, P, "frame-altered", case, format!("frame {i} of a long-lived stream came out altered ({} bytes through the buffer so far)", i * fr.len()), fmt_bytes(&fr[2..fr.len().min(34)]), fmt_bytes(&g[..g.len().min(32)]));
+                        return;
+                    }
+                    None => {
+                        viol!(acc, P, "frame-withheld", case, format!("pull returned nothing although frame {i} of a long-lived stream is completely buffered ({} bytes through the buffer so far)", i * fr.len()), format!("a frame of {} bytes", f[1]), "None");
+                        return;
+                    }
+                }
+                if buf.pull_data().is_some() {
+                    viol!(acc, P, "frame-from-incomplete-data", case, "pull returned a second frame from an empty buffer", "None", "Some");
+                    return;
+                }
+                pulled += 1;
+            }
         } else if op == "L" {
             if one_pull(&mut buf, &pushed, &mut pos, &mut pulled, acc).is_none() {
                 return;
@@ -326,6 +362,18 @@ pub fn run(ctx: &Ctx) -> Report {
         })
         .collect();
     let acc_len = crate::props::sweep(every_len.into_par_iter(), judge);
+    // one long-lived buffer: more than 2^32 bytes (thorough: 2^33) through a single TcpBuffer, in frames
+    // of 65535 / 1200 / 37 bytes (a 32-bit count of bytes or frames kept per buffer wraps on the way)
+    let life: Vec<Case> = {
+        let over = ctx.tier.pick(1usize, 2usize);
+        vec![
+            Case { op: "tcp".into(), data: vec![], args: vec![], text: vec![format!("R:{}:65535", over * 65_537 + 3), "D".into()] },
+            Case { op: "tcp".into(), data: vec![], args: vec![], text: vec![format!("R:{}:1200", over * 3_573_500), "D".into()] },
+            Case { op: "tcp".into(), data: vec![], args: vec![], text: vec![format!("R:{}:37", ctx.tier.pick(20_000_000usize, 120_000_000usize)), "D".into()] },
+            Case { op: "tcp".into(), data: vec![], args: vec![], text: vec![format!("R:{}:0", ctx.tier.pick(20_000_000usize, 70_000_000usize)), "D".into()] },
+        ]
+    };
+    let acc_len = acc_len.merge(crate::props::sweep(life.into_par_iter(), judge));
     // long streams (~450 KB, 250 frames with lengths from every size class) pushed in fixed-size
     // chunks under four pull policies: thresholds of an implementation (lazy compaction, capacity
     // shrinking, cursor wrap) are crossed with data still buffered
@@ -372,7 +420,7 @@ pub fn run(ctx: &Ctx) -> Report {
     Report {
         acc,
         exhaustive: true,
-        rule: format!("all sequences of <= 3 frames with lengths from {{0,1,2,3,5}} (distinct counter contents) whose stream is <= {max_stream} bytes x every chunking (all 2^(n-1) split patterns) x pull schedules (per-chunk choice of none / one pull / pull until None then once more: exhaustive up to 5 chunks, 5 patterns above); plus frames of 65535, 65534, 256, 255, 0 bytes split around the length prefix and the frame end; every frame length 0..=65535 (whole between two small frames; the bare prefix first; split inside the prefix and mid-payload); payloads that are STUN messages or carry the magic cookie at every offset 0..=8 (frames of 4..40 bytes, with following frames; one piece, byte by byte, every two-way split); a ~450 KB stream of 250 frames (lengths from 14 size classes, 0..40000) pushed in chunks of 3 / 97 / 1460 / 4096 / 16384 / 65536 / 100000 bytes under 4 pull policies; evaluations = push/pull calls, distinct_nontrivial = operation sequences"),
+        rule: format!("all sequences of <= 3 frames with lengths from {{0,1,2,3,5}} (distinct counter contents) whose stream is <= {max_stream} bytes x every chunking (all 2^(n-1) split patterns) x pull schedules (per-chunk choice of none / one pull / pull until None then once more: exhaustive up to 5 chunks, 5 patterns above); plus frames of 65535, 65534, 256, 255, 0 bytes split around the length prefix and the frame end; more than 2^32 bytes through one long-lived buffer in frames of 65535 / 1200 bytes, 2*10^7 frames of 37 and of 0 bytes; every frame length 0..=65535 (whole between two small frames; the bare prefix first; split inside the prefix and mid-payload); payloads that are STUN messages or carry the magic cookie at every offset 0..=8 (frames of 4..40 bytes, with following frames; one piece, byte by byte, every two-way split); a ~450 KB stream of 250 frames (lengths from 14 size classes, 0..40000) pushed in chunks of 3 / 97 / 1460 / 4096 / 16384 / 65536 / 100000 bytes under 4 pull policies; evaluations = push/pull calls, distinct_nontrivial = operation sequences"),
         bounds: json!({"frame_sequences": n_streams, "max_stream_bytes": max_stream, "dedup": "none (TcpBuffer's Debug hides its contents)"}),
         assumptions: vec![],
         ..Default::default()
